@@ -139,7 +139,13 @@ def _dispatch_job(args):
     """One handler configuration x all events.  Returns lines + counters."""
     hk, inc, exc, cs, igndir, paths = args
     ev, _ = world()
-    rec = recorders(ev)[hk]
+    if hk == "base+log":
+        # the base recorder behind LoggingEventHandler in a cooperative hierarchy: each on_<type> of the logging handler
+        # chains to the same on_<type> of the next class, so the recorder must see exactly what the base handler dictates
+        hk = "base"
+        rec = type("RecBehindLogging", (ev.LoggingEventHandler, recorders(ev)["base"]), {})
+    else:
+        rec = recorders(ev)[hk]
     if hk == "base":
         h = rec()
     elif hk == "pattern":
@@ -276,7 +282,7 @@ def run(c: checklib.Check):
     incs, excs = (INC_T, EXC_T) if c.thorough else (INC_Q, EXC_Q)
     rxs, igns = (RX_T, IGN_T) if c.thorough else (RX_Q, IGN_Q)
     sanity_reference(c, paths, incs, excs)
-    jobs = [("base", None, None, False, False, paths)]
+    jobs = [("base", None, None, False, False, paths), ("base+log", None, None, False, False, paths)]
     for cs in (True, False):
         for igndir in (False, True):
             jobs += [("pattern", i, x, cs, igndir, paths) for i in incs for x in excs]
